@@ -124,6 +124,26 @@ def analyze(ctx, want):
     ex, paths = run_fn(sg, F, LogModel())
     early = 0
     out_loop = {}
+    # out-parameter form: the groups are appended to a `&mut Partition` the caller hands in instead of being returned
+    outp = [a for a in range(1, sg.argc + 1) if re.match(r"^&mut std::vec::Vec<std::collections::BTreeSet<internal::ids::StateID>>", sg.locals[a]["ty"])]
+    outname = sg.names().get(outp[0]) if len(outp) == 1 else None
+
+    def out_appends(p_):
+        res = []
+        for e_ in p_.events:
+            if e_[0] == "call" and re.search(r"Vec::<.*>::(push|extend|append|extend_from_slice)$|Extend<.*>>::extend(::<.*>)?$", e_[2]) and e_[3] and outname is not None \
+                    and re.search(r"\b%s\b" % re.escape(outname), S.fstr(e_[3][0])):
+                res.append(e_)
+        return res
+
+    def only_group(v_):
+        n_ = 0
+        while v_[0] in ("ref", "deref") and n_ < 4:
+            v_ = v_[1] if v_[0] == "deref" else v_
+            if v_[0] == "ref":
+                break
+            n_ += 1
+        return v_ == ("sym", "group") or (v_[0] in ("vec", "array") and len(v_[1]) == 1 and v_[1][0] == ("sym", "group"))
     # (iteration paths first: the return paths refer to what the loops did)
     for p in sorted(paths, key=lambda q: 0 if q.end and q.end[0] == "cut" else 1):
         ln = [(c, o) for c, o in p.conds if c[0] == "binop" and "BTreeSet::len(&group)" in S.fstr(c)]
@@ -134,7 +154,11 @@ def analyze(ctx, want):
             c, o = ln[-1]
             ok = c[1] == "Eq" and ("int", 1) in (c[2], c[3]) or (c[1] in ("Le", "Lt") and (("int", 1) in (c[2], c[3]) or ("int", 2) in (c[2], c[3])) and c[1] == "Le" and ("int", 1) in (c[2], c[3]))
             r = p.end[1]
-            whole = S.mentions(r, lambda x: x == ("sym", "group"))
+            whole = only_group(r)
+            if outname is not None and r == ("unit",):
+                ap_ = out_appends(p)
+                whole = len(ap_) == 1 and re.search(r"::push$", ap_[0][2]) is not None and only_group(argval(ap_[0], 1))
+                r = argval(ap_[0], 1) if ap_ else r
             ob("C03.b", "unsplit-return-only-for-singletons", bool(ok) and whole, "early return under %s returning %s" % (S.fstr(c), S.fstr(r)[:60]), sg.loc())
         elif p.end[0] == "cut" and sig:
             # one state of the group: its signature is computed (against the given partition) and the state is added to the
@@ -177,6 +201,11 @@ def analyze(ctx, want):
         elif p.end[0] == "return":
             r = p.end[1]
             ok = S.mentions(r, lambda x: x[0] == "app" and re.search(r"BTreeMap::<.*>::into_values$", x[1]) is not None)
+            if not ok and outname is not None and r == ("unit",):
+                ap_ = out_appends(p)
+                ok = len(ap_) == 1 and re.search(r"extend(::<.*>)?$", ap_[0][2]) is not None and len(ap_[0][3]) == 2 \
+                    and argval(ap_[0], 1)[0] == "app" and re.search(r"BTreeMap::<.*>::into_values$", str(argval(ap_[0], 1)[1])) is not None
+                r = argval(ap_[0], 1) if ap_ else r
             if not ok and out_loop.get("push"):
                 from .common import loop_sources
                 ok = any(re.search(r"BTreeMap|transition_map_to_states", s_) for _, s_ in loop_sources(ex, paths)) and not [1 for bb_, t_ in sg.calls(ADAPTERS)]
@@ -216,6 +245,21 @@ def analyze(ctx, want):
     flat = [M.call_name(t) for bb, t in np_.calls(r"Iterator>::flat_map::")]
     coll = [M.call_name(t) for bb, t in np_.calls(r"Iterator>::collect::|FromIterator<.*>>::from_iter")]
     ok_coll = pushes == 1 or (len(flat) == 1 and len(coll) == 1 and pushes == 0)
+    if not ok_coll and outname is not None and pushes == 0 and not flat and not coll:
+        # out-parameter form: every split_group call appends to the very list this function returns
+        ret_locals = {s_["rv"]["op"]["p"]["l"] for bb_, i_, s_ in np_.assigns() if s_["p"]["l"] == 0 and not s_["p"]["pj"] and s_["rv"]["k"] == "use" and s_["rv"]["op"]["k"] in ("move", "copy") and not s_["rv"]["op"]["p"]["pj"]}
+        pv_ = M.Prov(np_)
+
+        def locals_in(t_):
+            out_ = set()
+            if isinstance(t_, tuple):
+                if t_ and t_[0] in ("phi", "var", "mutated") and len(t_) >= 3 and isinstance(t_[-2] if t_[0] == "phi" else t_[1], int):
+                    out_.add(t_[-2] if t_[0] == "phi" else t_[1])
+                for x_ in t_:
+                    out_ |= locals_in(x_)
+            return out_
+        calls_ = list(np_.calls(r"Minimizer::split_group$"))
+        ok_coll = bool(calls_) and len(ret_locals) == 1 and all(len(t_["args"]) == sg.argc and (ret_locals & locals_in(pv_.operand(t_["args"][outp[0] - 1]))) for bb_, t_ in calls_)
     ob("C03.b", "all-split-results-are-collected", ok_coll, "pushes/extends: %d; flat_map: %d, collect: %d" % (pushes, len(flat), len(coll)), np_.loc())
 
     # ---- C03.c signatures are complete ------------------------------------------------------------
